@@ -13,7 +13,15 @@ import (
 
 // CheckStoredObject verifies key = hash(canonical bytes), decode succeeds,
 // re-encode reproduces the stored bytes. Returns "" when fine.
-func CheckStoredObject(key string, val []byte) string {
+func CheckStoredObject(key string, val []byte) string { return checkStoredObject(key, val, true) }
+
+// CheckStoredObjectLenient: key = hash and decodable, but the encoding need not
+// be canonical (objects that came from a hostile peer, C17).
+func CheckStoredObjectLenient(key string, val []byte) string {
+	return checkStoredObject(key, val, false)
+}
+
+func checkStoredObject(key string, val []byte, strict bool) string {
 	i := strings.IndexByte(key, '/')
 	if i < 0 {
 		return ""
@@ -29,7 +37,7 @@ func CheckStoredObject(key string, val []byte) string {
 			return fmt.Sprintf("stored commit %x does not decode: %v", suf, err)
 		}
 		var b bytes.Buffer
-		if _, err := c.WriteTo(&b); err != nil || !bytes.Equal(b.Bytes(), val) {
+		if _, err := c.WriteTo(&b); strict && (err != nil || !bytes.Equal(b.Bytes(), val)) {
 			return fmt.Sprintf("commit %x: re-encoding what was read differs from the stored bytes (err=%v)", suf, err)
 		}
 	case "tbl/":
@@ -41,7 +49,7 @@ func CheckStoredObject(key string, val []byte) string {
 			return fmt.Sprintf("stored table %x does not decode: %v", suf, err)
 		}
 		var b bytes.Buffer
-		if _, err := tb.WriteTo(&b); err != nil || !bytes.Equal(b.Bytes(), val) {
+		if _, err := tb.WriteTo(&b); strict && (err != nil || !bytes.Equal(b.Bytes(), val)) {
 			return fmt.Sprintf("table %x: re-encoding what was read differs from the stored bytes (err=%v)", suf, err)
 		}
 	case "blk/":
